@@ -274,6 +274,10 @@ class ManifestContext:
                         mf.parse_media_file()
                     if mf.representation is None:
                         continue
+                    if mf.representation.content_type != adp_set.content_type:
+                        # the track ID has been re-used by a file with a
+                        # different type of content
+                        continue
                     adp_set.representations.append(mf.representation)
                 adp_set.compute_av_values()
                 period.adaptationSets.append(adp_set)
@@ -368,10 +372,14 @@ class ManifestContext:
                 mf.parse_media_file()
             if mf.representation is None:
                 continue
-            assert mf.content_type == 'video'
-            assert mf.representation.content_type == 'video'
+            if mf.representation.content_type != 'video':
+                continue
+            if (
+                    video.representations and
+                    video.representations[0].track_id != mf.representation.track_id):
+                # only one video AdaptationSet is supported
+                continue
             video.representations.append(mf.representation)
-            assert video.representations[0].track_id == mf.representation.track_id
         video.compute_av_values()
         assert isinstance(video.representations, list)
         return video
